@@ -3,7 +3,8 @@
 Correspondence: parsed tree (with every default) vs the Lean parser model; serialized JSON vs the
 Lean serializer.  Oracle: the default found on the parsed element, in the JSON document and in
 the executed generated Python, at the position the schema put it — and nowhere else; the class
-description and the generated class's docstring, character for character."""
+description and the generated class's docstring, character for character — for every object schema
+of the document, whatever other keywords it carries and wherever it sits."""
 import json
 import random
 
@@ -32,6 +33,9 @@ SHAPES = {
     "array": lambda d: {"type": "array", "items": {"type": "integer"}, "default": d},
     "object-class": lambda d: {"type": "object", "title": "Holder", "properties": {"p": {"type": "integer"}}, "default": d},
     "object+composition": lambda d: {"type": "object", "title": "Holder", "anyOf": [{"required": ["p"]}, {"required": ["q"]}], "default": d},
+    # compositions whose composed result is a single object class (the parser's wrapper branch)
+    "object+trivial-composition": lambda d: {"type": "object", "title": "Holder", "properties": {"p": {"type": "integer"}}, "anyOf": [{}], "default": d},
+    "allOf-single-object": lambda d: {"allOf": [{"type": "object", "title": "Holder", "properties": {"p": {"type": "integer"}}}], "default": d},
     "reduces-to-nothing": lambda d: {"anyOf": [False], "default": d},
     "all-trivial-composition": lambda d: {"allOf": [{}], "default": d},
     "trivial-anyOf": lambda d: {"anyOf": [True, {}], "default": d},
@@ -80,6 +84,13 @@ def json_defaults(doc, path="$", out=None):
     return out
 
 
+def _declared(d):
+    """the default a schema declares by writing `d` (the auto-title annotation is not part of a literal)"""
+    if isinstance(d, dict) and "_x_autotitle" in d:
+        return core.enc_val({k: v for k, v in d.items() if k != "_x_autotitle"})
+    return core.enc_val(core.copy.deepcopy(d))
+
+
 def check_default(drv, shape, position, d, out, stats, used=False):
     inner = SHAPES[shape](d)
     schema = POSITIONS[position](inner)
@@ -111,7 +122,7 @@ def check_default(drv, shape, position, d, out, stats, used=False):
     agree = dump == rep["elem"]
     if not agree:
         out.disagreements.append({"what": "parsed tree", "impl": dump, "model": rep["elem"], **case})
-    want = core.enc_val(core.copy.deepcopy(d)) if not (isinstance(d, dict) and "_x_autotitle" in d) else core.enc_val({k: v for k, v in d.items() if k != "_x_autotitle"})
+    want = _declared(d)
     region = "C07-reduces-to-nothing" if shape == "reduces-to-nothing" else None
 
     def fail(what):
@@ -189,17 +200,19 @@ def check_description(desc, out, stats):
     status, el = core.real_parse(schema)
     if status != "ok":
         return
-    region = None if safe_description(desc) else "C07-docstring-quoting"
+    # the listed finding is about the docstring *emission* only: what the parsed class and the JSON document carry is
+    # outside its region, however hostile the description
+    quoting = None if safe_description(desc) else "C07-docstring-quoting"
 
-    def fail(what):
+    def fail(what, region=quoting):
         out.failures.append({"case": case, "what": what, "finding": region})
         stats["oracle-fail-" + str(region)] = stats.get("oracle-fail-" + str(region), 0) + 1
 
     if getattr(el, "description", None) != desc:
-        fail(f"class description is {getattr(el, 'description', None)!r}")
+        fail(f"class description is {getattr(el, 'description', None)!r}", None)
         return
     if serialize_json(el).get("description") != desc:
-        fail("JSON serialization lost or altered the description")
+        fail("JSON serialization lost or altered the description", None)
         return
     src = serialize_python(el)
     ns = {}
@@ -216,6 +229,147 @@ def check_description(desc, out, stats):
         fail(f"docstring of the generated class is {getattr(other, '__doc__', None)!r}, description {getattr(other, 'description', None)!r}")
         return
     stats["descriptions-ok"] = stats.get("descriptions-ok", 0) + 1
+
+
+# ---- described object schemas with other keywords beside the description, at every place an object schema can sit
+_PROPS = {"a": {"type": "string"}, "b": {"type": "integer"}}
+COMPANIONS = {
+    "none": lambda: {},
+    "anyOf-required": lambda: {"anyOf": [{"required": ["a"]}, {"required": ["b"]}]},
+    "oneOf-required": lambda: {"oneOf": [{"required": ["a"]}, {"required": ["b"]}]},
+    "allOf-constraint": lambda: {"allOf": [{"minProperties": 1}]},
+    "not": lambda: {"not": {"required": ["forbidden"]}},
+    "trivial-composition": lambda: {"anyOf": [{}]},
+    "several-compositions": lambda: {"allOf": [{"maxProperties": 5}], "anyOf": [{"required": ["a"]}, {"required": ["b"]}], "not": {"required": ["z"]}},
+    "default": lambda: {"default": {}},
+    "composition+default": lambda: {"oneOf": [{"required": ["a"]}, {"required": ["b"]}], "default": {"a": "s"}},
+    "described-composition-member": lambda: {"anyOf": [{"description": "about the branch", "required": ["a"]}, {"required": ["b"]}]},
+    "allOf-object-member": lambda: {"allOf": [{"type": "object", "title": "Base", "description": "The base.", "properties": {"c": {"type": "null"}}}]},
+    "object-keywords": lambda: {"required": ["a"], "additionalProperties": False, "minProperties": 1,
+                                "patternProperties": {"^x": {"type": "null"}}, "dependencies": {"a": ["b"]}},
+    "type-list": lambda: {"type": ["object"]},
+}
+DESC_POSITIONS = {
+    "root": lambda s: s,
+    "property": lambda s: {"type": "object", "title": "Outer", "description": "The holder.", "properties": {"the prop": s, "other": {"type": "string"}}},
+    "nested-property": lambda s: {"type": "object", "title": "Outer", "properties": {"mid": {"type": "object", "title": "Middle", "description": "In between.", "properties": {"p": s}}}},
+    "items": lambda s: {"type": "array", "items": s},
+    "tuple-item": lambda s: {"type": "array", "items": [{"type": "string"}, s]},
+    "branch": lambda s: {"anyOf": [s, {"type": "null"}]},
+    "additionalProperties": lambda s: {"type": "object", "title": "Outer", "description": "The holder.", "additionalProperties": s},
+    "definition": lambda s: {"type": "object", "title": "Outer", "properties": {"n": {"type": "integer"}}, "definitions": {"described": s}},
+    "definition+use": None,     # built in described_document: the same dict object as a definition and as a property
+}
+
+
+def described_document(desc, companion, position):
+    inner = {"type": "object", "title": "Described", "description": desc, "properties": core.copy.deepcopy(_PROPS)}
+    inner.update(COMPANIONS[companion]())
+    if position == "definition+use":
+        return {"type": "object", "title": "Outer", "description": "The holder.", "properties": {"use": inner}, "definitions": {"described": inner}}
+    return DESC_POSITIONS[position](inner)
+
+
+def declared_objects(schema, out=None):
+    """title -> declared description (None: none declared) of every titled object schema of a document"""
+    out = {} if out is None else out
+    if isinstance(schema, dict):
+        kind = schema.get("type")
+        if (kind == "object" or kind == ["object"]) and isinstance(schema.get("title"), str):
+            out[schema["title"]] = schema.get("description")
+        for key, sub in schema.items():
+            if key in ("default", "const", "enum", "required"):
+                continue
+            if key in ("properties", "patternProperties", "definitions", "dependencies") and isinstance(sub, dict):
+                for v in sub.values():
+                    declared_objects(v, out)
+            else:
+                declared_objects(sub, out)
+    elif isinstance(schema, list):
+        for sub in schema:
+            declared_objects(sub, out)
+    return out
+
+
+def _titled(doc, title):
+    """every sub-document of a JSON serialization that has the given title"""
+    found = []
+    if isinstance(doc, dict):
+        if doc.get("title") == title:
+            found.append(doc)
+        for k, v in doc.items():
+            if k not in ("default", "const", "enum"):
+                found += _titled(v, title)
+    elif isinstance(doc, list):
+        for v in doc:
+            found += _titled(v, title)
+    return found
+
+
+def check_described_object(desc, companion, position, out, stats):
+    """Every titled object schema of the document (the described one, whatever keywords sit beside its description and
+    wherever it is placed, and the bystanders): its description is the description of its class, stands on its node of the
+    JSON serialization, and is the docstring of its generated class; one that declares none gets none."""
+    from statham.schema.constants import NotPassed
+    from statham.schema.parser import parse
+    from statham.serializers.orderer import get_object_classes
+    schema = described_document(desc, companion, position)
+    case = {"described_object": {"description": desc, "companion": companion, "position": position}, "schema": schema}
+    out.note_case(case, True)
+    declared = declared_objects(schema)
+    try:
+        elements = parse(core.copy.deepcopy(schema))       # deepcopy keeps the sharing
+    except Exception as exc:  # noqa: BLE001
+        out.failures.append({"case": case, "what": f"parse raised {type(exc).__name__}: {exc}", "finding": None})
+        return
+    quoting = None if all(d is None or safe_description(d) for d in declared.values()) else "C07-docstring-quoting"
+
+    def fail(what, region=None):
+        out.failures.append({"case": case, "what": what, "finding": region})
+        stats["oracle-fail-" + str(region)] = stats.get("oracle-fail-" + str(region), 0) + 1
+
+    try:
+        classes = {}
+        for cls in get_object_classes(*elements):
+            if not any(c is cls for c in classes.setdefault(cls.__name__, [])):       # one class reached from two roots is one class
+                classes[cls.__name__].append(cls)
+        for title, want in declared.items():
+            got = [c.description if isinstance(c.description, str) else None for c in classes.get(title, [])]
+            if got != [want]:
+                fail(f"object schema {title!r} declares description {want!r}; its parsed class(es) carry {got!r} (parsed: {elements!r})")
+                return
+        doc = _plain(serialize_json(*elements))
+        for title, want in declared.items():
+            jgot = [n.get("description") for n in _titled(doc, title)]
+            if jgot != [want]:
+                fail(f"object schema {title!r} declares description {want!r}; its node(s) in the JSON serialization carry {jgot!r}")
+                return
+        src = serialize_python(*elements)
+    except Exception as exc:  # noqa: BLE001
+        fail(f"{type(exc).__name__} escaped from the library: {exc}")
+        return
+    ns = {}
+    try:
+        import warnings
+        with warnings.catch_warnings():
+            warnings.simplefilter("ignore")
+            exec(compile(src, "<generated>", "exec"), ns)  # noqa: S102
+    except Exception as exc:  # noqa: BLE001
+        fail(f"generated Python does not execute: {type(exc).__name__}", quoting)
+        return
+    for title, want in declared.items():
+        other = ns.get(title)
+        doc_got = getattr(other, "__doc__", "<no class>")
+        desc_got = getattr(other, "description", None)
+        desc_got = desc_got if not isinstance(desc_got, NotPassed) else None
+        if other is None or doc_got != want or desc_got != want:
+            # the listed finding covers the emitted docstring of a description the predicate refuses, nothing else
+            fail(f"object schema {title!r} declares description {want!r}; its generated class has docstring {doc_got!r}, description {desc_got!r}",
+                 quoting if want is not None and not safe_description(want) else None)
+            return
+    stats["described-object-ok"] = stats.get("described-object-ok", 0) + 1
+    for key in ("companion:" + companion, "described-at:" + position):
+        stats[key] = stats.get(key, 0) + 1
 
 
 def _resolve(doc, node):
@@ -289,45 +443,84 @@ def check_description_twins(d1, d2, place, out, stats):
     stats["twins-ok"] = stats.get("twins-ok", 0) + 1
 
 
-def check_shared_default(kw, d, order, target, out, stats):
-    """one schema dict *object* used in two places (what resolving `$ref`s produces); one use sits alone inside a
-    composition keyword with a default beside it: the default belongs to that use only"""
-    shared = {"type": "string", "maxLength": 9} if target == "leaf" else {"type": "array", "items": {"type": "integer"}}
-    wrapped = {kw: [shared], "default": d}
+SHARED_TARGETS = {
+    "leaf": lambda: {"type": "string", "maxLength": 9},
+    "array": lambda: {"type": "array", "items": {"type": "integer"}},
+    # an object schema: its element is a class, which the parser keeps one of per `parse` (every user shares it)
+    "object": lambda: {"type": "object", "title": "Settings", "properties": {"mode": {"type": "string"}}},
+}
+
+
+def check_shared_default(kw, d, order, target, out, stats, form="member"):
+    """one schema used in two places and as a definition; one use has a composition keyword and a default beside it: the
+    default belongs to that use only.  form "member": the very same dict *object* (what resolving `$ref`s produces) sits
+    alone inside the composition keyword; form "equal-member": an equal but distinct dict sits there; form "inline": the
+    use is an equal schema with a trivial composition keyword and the default written into it."""
+    from statham.schema.constants import NotPassed
+    from statham.schema.parser import parse
+    shared = SHARED_TARGETS[target]()
+    if form == "inline":
+        wrapped = {**core.copy.deepcopy(shared), kw: [{}], "default": d}
+    elif form == "equal-member":
+        wrapped = {kw: [core.copy.deepcopy(shared)], "default": d}
+    else:
+        wrapped = {kw: [shared], "default": d}
     props = {"plain": shared, "wrapped": wrapped} if order == "plain-first" else {"wrapped": wrapped, "plain": shared}
     schema = {"type": "object", "title": "Outer", "properties": props, "definitions": {"name": shared}}
     case = {"shared_default": {"keyword": kw, "default": core.enc_val(d), "order": order, "target": target}}
+    if form != "member":
+        case["shared_default"]["form"] = form
     out.note_case(case, True)
-    from statham.schema.parser import parse
     try:
         elements = parse(core.copy.deepcopy(schema))       # deepcopy keeps the sharing
     except Exception:  # noqa: BLE001
         return
-    root = elements[0]
-    plain, wr = root.properties["plain"].element, root.properties["wrapped"].element
-    from statham.schema.constants import NotPassed
-    want = core.enc_val(d)
+    want = _declared(d)
 
     def fail(what):
         out.failures.append({"case": case, "what": what, "finding": None})
+        stats["oracle-fail-None"] = stats.get("oracle-fail-None", 0) + 1
 
-    if not isinstance(getattr(plain, "default", NotPassed()), NotPassed):
-        fail(f"the default {d!r} written beside {kw} leaked to the other user of the shared schema (default {plain.default!r})")
-        return
-    for extra in elements[1:]:
-        if not isinstance(getattr(extra, "default", NotPassed()), NotPassed):
-            fail(f"the default {d!r} leaked to the definition itself")
+    try:
+        root = elements[0]
+        plain, wr = root.properties["plain"].element, root.properties["wrapped"].element
+        if not isinstance(getattr(plain, "default", NotPassed()), NotPassed):
+            fail(f"the default {d!r} written beside {kw} leaked to the other user of the shared schema (default {plain.default!r})")
             return
-    found = find_defaults(core.dump_elem(wr))
-    if [v for _, v in found] != [want]:
-        fail(f"the wrapped use carries defaults {found}, expected exactly {want}")
+        for extra in elements[1:]:
+            if not isinstance(getattr(extra, "default", NotPassed()), NotPassed):
+                fail(f"the default {d!r} written beside {kw} leaked to the definition itself ({extra!r} carries default {extra.default!r})")
+                return
+        found = find_defaults(core.dump_elem(wr))
+        if [v for _, v in found] != [want]:
+            fail(f"the wrapped use carries defaults {found}, expected exactly {want}")
+            return
+        if wr is plain:
+            fail(f"the use with the default {d!r} and the use without are one element ({wr!r})")
+            return
+        doc = _plain(serialize_json(*elements))
+        jd = json_defaults(doc)
+        if [v for _, v in jd] != [want] or "default" not in doc["properties"]["wrapped"]:
+            fail(f"JSON serialization carries defaults {jd}, expected exactly one, on the use that declares it: {want}")
+            return
+        # generated Python, executed: the same two uses
+        src = serialize_python(*elements)
+    except Exception as exc:  # noqa: BLE001
+        fail(f"{type(exc).__name__} escaped from the library: {exc}")
         return
-    doc = _plain(serialize_json(*elements))
-    jd = json_defaults(doc)
-    if [v for _, v in jd] != [want]:
-        fail(f"JSON serialization carries defaults {jd}, expected exactly one: {want}")
+    ns = {}
+    try:
+        exec(compile(src, "<generated>", "exec"), ns)  # noqa: S102
+        gen = ns["Outer"].properties
+        gplain, gwr = find_defaults(core.dump_elem(gen["plain"].element)), find_defaults(core.dump_elem(gen["wrapped"].element))
+    except Exception as exc:  # noqa: BLE001
+        fail(f"generated Python does not execute / lacks the two uses: {type(exc).__name__}: {exc}")
+        return
+    if gplain or [v for _, v in gwr] != [want]:
+        fail(f"generated Python: the use without a default carries {gplain}, the use that declares {want} carries {gwr}")
         return
     stats["shared-default-ok"] = stats.get("shared-default-ok", 0) + 1
+    stats[f"shared-default:{target}/{form}"] = stats.get(f"shared-default:{target}/{form}", 0) + 1
 
 
 def check_shared_node(shape, d, out, stats):
@@ -362,10 +555,13 @@ def check_shared_node(shape, d, out, stats):
 def run(ctx, scale=1.0):
     rng = random.Random(ctx["seed"] + 7)
     out = Outcome()
-    out.rule = ("every default of the pool (7 falsy + 9 truthy + random JSON values) x 15 schema shapes x 5 positions; every description of the "
-                "whitespace / hostile / random pools on an object schema; pairs of equally titled, equally shaped objects differing only in "
+    out.rule = ("every default of the pool (7 falsy + 9 truthy + random JSON values) x 17 schema shapes x 5 positions; every description of the "
+                "whitespace / hostile / random pools on an object schema; described object schemas with 13 groups of companion keywords "
+                "(composition keywords, default, object keywords, type list) x 9 places (root, property, items, branch, definition, ...), every "
+                "titled object of the document looked at; pairs of equally titled, equally shaped objects differing only in "
                 "their description (3 places); a default beside a one-member composition whose member object is shared with another place "
-                "(3 keywords x 8 defaults x 2 orders x 2 targets); a case is one (shape, position, default), one description, one pair or one sharing; "
+                "(3 keywords x 8 defaults x 2 orders x 2 targets; the whole default pool x 3 keywords x 3 forms of sharing on an object class, parsed "
+                "element, JSON and executed Python); a case is one (shape, position, default), one description, one pair or one sharing; "
                 "all non-trivial; distinct by SHA-256")
     stats = {}
     drv = core.Driver()
@@ -387,6 +583,16 @@ def run(ctx, scale=1.0):
         for desc in descs:
             if not core.has_surrogate(desc):
                 check_description(desc, out, stats)
+        # described object schemas with other keywords beside the description, at every place an object schema can sit:
+        # every (companion, position) pair with a description drawn from the safe pool or random, plus hostile ones
+        safe_pool = [d for d in descs if safe_description(d) and not core.has_surrogate(d)]
+        hostile = [d for d in descs if not safe_description(d) and not core.has_surrogate(d)]
+        for _ in range(max(1, int(scale))):
+            for companion in COMPANIONS:
+                for position in DESC_POSITIONS:
+                    check_described_object(rng.choice(safe_pool), companion, position, out, stats)
+        for _ in range(int((40 if ctx["tier"] == "quick" else 1500) * scale)):
+            check_described_object(rng.choice(hostile), rng.choice(list(COMPANIONS)), rng.choice(list(DESC_POSITIONS)), out, stats)
         # equally titled, equally shaped objects that differ in their description only
         pool = sorted({d for d in WHITESPACE_DESCRIPTIONS + ["First address.", "Second address.", "x"] if safe_description(d)})
         for place in ("properties", "tuple-items", "nested"):
@@ -401,6 +607,16 @@ def run(ctx, scale=1.0):
                 for order in ("plain-first", "wrapped-first"):
                     for target in ("leaf", "array"):
                         check_shared_default(kw, d, order, target, out, stats)
+        # ... the same where the composed result is one shared element whatever the form of the sharing (object classes are
+        # one per parse; equal leaves are distinct elements): every default of the pool, a random one of the three forms x
+        # three targets each, and the object target with every form
+        forms = ("member", "equal-member", "inline")
+        for d in FALSY + TRUTHY + extra[:6]:
+            for kw in ("allOf", "anyOf", "oneOf"):
+                for form in forms:
+                    check_shared_default(kw, d, rng.choice(("plain-first", "wrapped-first")), "object", out, stats, form=form)
+                check_shared_default(kw, d, rng.choice(("plain-first", "wrapped-first")), rng.choice(("leaf", "array")), out, stats,
+                                     form=rng.choice(forms[1:]))
         # a schema node with its own default, shared by several users
         for shape in SHAPES:
             for d in FALSY[:3] + TRUTHY[:3]:
@@ -431,7 +647,10 @@ def _replay_case(case):
         elif "shared_default" in case:
             sd = case["shared_default"]
             from harness import dsl as _dsl
-            check_shared_default(sd["keyword"], _dsl.dec_val(sd["default"]), sd["order"], sd["target"], out, stats)
+            check_shared_default(sd["keyword"], _dsl.dec_val(sd["default"]), sd["order"], sd["target"], out, stats, form=sd.get("form", "member"))
+        elif "described_object" in case:
+            do = case["described_object"]
+            check_described_object(do["description"], do["companion"], do["position"], out, stats)
         elif "description" in case:
             check_description(case["description"], out, stats)
         else:
